@@ -36,6 +36,8 @@ type Val struct {
 	// Lit / LitEnv: a function literal and the environment it closes over (conflicts := func(key string) bool {..})
 	Lit    *ast.FuncLit
 	LitEnv *Env
+	// Type: the dynamic type of a value built from a composite literal (for calls through an interface)
+	Type types.Type
 	// Unknown: fields of a struct literal whose value is outside the domain (reading one fails)
 	Unknown map[string]bool
 	// Fn: a declared function used as a value (conv := asIs; parse := strconv.Atoi)
@@ -343,7 +345,7 @@ func (env *Env) eval(e ast.Expr) *Val {
 				// positional fields: pair{grpcLevel, modelLevel}
 				if len(x.Elts) > 0 {
 					if _, keyed := x.Elts[0].(*ast.KeyValueExpr); !keyed && len(x.Elts) == ut.NumFields() {
-						v := &Val{Fields: map[string]*Val{}, Complete: true}
+						v := &Val{Fields: map[string]*Val{}, Complete: true, Type: tv.Type}
 						for i, el := range x.Elts {
 							v.Fields[ut.Field(i).Name()] = env.eval(el)
 						}
@@ -373,6 +375,9 @@ func (env *Env) eval(e ast.Expr) *Val {
 		if len(v.Unknown) > 0 {
 			// the fields not listed are still zero
 			v.Complete = true
+		}
+		if tv, ok := info.Types[x]; ok {
+			v.Type = tv.Type
 		}
 		return v
 	}
@@ -572,6 +577,30 @@ func (env *Env) evalCallN(c *ast.CallExpr) []*Val {
 	fn, _ := typeutil.Callee(info, c).(*types.Func)
 	if fn != nil {
 		fn = fn.Origin()
+	}
+	// a call through an interface of the module on a value whose dynamic type is known (built from a composite
+	// literal on this path): the method of that type runs
+	if fn != nil {
+		if sig, ok := fn.Type().(*types.Signature); ok && sig.Recv() != nil {
+			if _, isIface := sig.Recv().Type().Underlying().(*types.Interface); isIface {
+				if sel, ok := ast.Unparen(c.Fun).(*ast.SelectorExpr); ok {
+					if rv, rerr := env.Eval(sel.X); rerr == nil && rv != nil {
+						dv := rv
+						dt := dv.Type
+						if dt == nil && dv.Ptr != nil && dv.Ptr.Type != nil {
+							dt = types.NewPointer(dv.Ptr.Type)
+						}
+						if dt != nil {
+							if obj, _, _ := types.LookupFieldOrMethod(dt, true, fn.Pkg(), fn.Name()); obj != nil {
+								if m, ok := obj.(*types.Func); ok && env.P.Funcs[fkey(m.Origin())] != nil {
+									return env.evalDeclCallN(c, m.Origin())
+								}
+							}
+						}
+					}
+				}
+			}
+		}
 	}
 	if fn == nil {
 		// a local closure: its body runs in the environment it was made in (captured variables are shared)
